@@ -228,7 +228,8 @@ def with_provenance(make, span, prov, names=(), prepare=None):
 
 
 def build_instance(case, mixins=(), span=None, exo=('X',)):
-    cls = scripted_class(case['nE'], case['check'], mixins, exo, case.get('names'))
+    extra = tuple(c for c in mix_classes(case.get('mix')) if c not in mixins)
+    cls = scripted_class(case['nE'], case['check'], tuple(mixins) + extra, exo, case.get('names'))
     n = case['n']
     names = names_of(case)
 
@@ -258,6 +259,8 @@ def vary_implementation_side(case, rng):
     case['write'] = rng.choice(['inplace', 'inplace', 'rebind'])
     case['prov'] = rng.choice(PROVENANCES)
     case['names'] = rng.choice(NAME_STYLES)
+    case['argform'] = rng.choice(['plain', 'plain', 'numpy'])
+    case['mix'] = rng.choice(MIXES)
     if rng.random() < 0.4:      # the record of earlier solves (visible to the model too: it must never matter)
         case['status'] = ''.join(rng.choice('-.FES') for _ in range(case['n']))
         case['iters'] = [rng.choice([-1, 0, 3, 7]) for _ in range(case['n'])]
@@ -288,9 +291,31 @@ def span_of(kind, n):
     raise AssertionError(kind)
 
 
-def opts_kwargs(o, tol_bits):
-    return dict(min_iter=o['min_iter'], max_iter=o['max_iter'], tol=unbits(tol_bits), offset=o['offset'],
-                failures=o['failures'], errors=o['errors'], catch_first_error=o['catch_first_error'])
+def opts_kwargs(o, tol_bits, form='plain'):
+    """Keyword arguments of a solve call.  `form='numpy'`: the same values as NumPy scalars (np.int64 counts and
+    offsets, np.float64 tolerance, np.bool_ flag), which callers obtain whenever they compute them with NumPy."""
+    kw = dict(min_iter=o['min_iter'], max_iter=o['max_iter'], tol=unbits(tol_bits), offset=o['offset'],
+              failures=o['failures'], errors=o['errors'], catch_first_error=o['catch_first_error'])
+    if form == 'numpy':
+        kw.update(min_iter=np.int64(kw['min_iter']), max_iter=np.int64(kw['max_iter']), tol=np.float64(kw['tol']),
+                  offset=np.int64(kw['offset']), catch_first_error=np.bool_(kw['catch_first_error']))
+    return kw
+
+
+def t_arg(case):
+    return np.int64(case['t']) if case.get('argform') == 'numpy' else case['t']
+
+
+MIXES = ['none', 'none', 'none', 'alias', 'pandas', 'tracer', 'all']
+
+
+def mix_classes(mix):
+    """Extension mixins put under the scripted class: each must leave the solver's behaviour untouched."""
+    if mix in (None, 'none'):
+        return ()
+    from fsic.extensions import AliasMixin, PandasIndexFeaturesMixin, TracerMixin
+    return {'alias': (AliasMixin,), 'pandas': (PandasIndexFeaturesMixin,), 'tracer': (TracerMixin,),
+            'all': (AliasMixin, PandasIndexFeaturesMixin, TracerMixin)}[mix]
 
 
 def exc_name(e):
@@ -316,13 +341,13 @@ def world_str(m, nE):
 def run_impl_solve_t(case, mixins=(), extra_kwargs=None):
     """Run the real solve_t on the case; returns (canonical string, model instance, result tag)."""
     m = build_instance(case, mixins)
-    kw = opts_kwargs(case['opts'], case['tol'])
+    kw = opts_kwargs(case['opts'], case['tol'], case.get('argform', 'plain'))
     if extra_kwargs:
         kw.update(extra_kwargs)
     with warnings.catch_warnings():
         warnings.simplefilter('ignore')
         try:
-            r = m.solve_t(case['t'], **kw)
+            r = m.solve_t(t_arg(case), **kw)
             tag = 'ret:T' if r is True or (r is not False and bool(r)) else 'ret:F'
         except Exception as e:  # noqa: BLE001
             tag = exc_name(e)
@@ -334,7 +359,7 @@ def run_impl_solve_period(case, mixins=(), extra_kwargs=None):
     the label handed over is the span's own element at that position)."""
     span = span_of(case.get('span_kind', 'list'), case['n'])
     m = build_instance(case, mixins, span=span)
-    kw = opts_kwargs(case['opts'], case['tol'])
+    kw = opts_kwargs(case['opts'], case['tol'], case.get('argform', 'plain'))
     if extra_kwargs:
         kw.update(extra_kwargs)
     pos = case['t'] + case['n'] if case['t'] < 0 else case['t']
@@ -352,7 +377,7 @@ def run_impl_solve(case, mixins=(), extra_kwargs=None, span=None, start=None, en
     m = build_instance(case, mixins, span=span)
     m.__dict__['lags'] = case['lags']
     m.__dict__['leads'] = case['leads']
-    kw = opts_kwargs(case['opts'], case['tol'])
+    kw = opts_kwargs(case['opts'], case['tol'], case.get('argform', 'plain'))
     if extra_kwargs:
         kw.update(extra_kwargs)
     with warnings.catch_warnings():
